@@ -126,6 +126,9 @@ def cw_fixed():
     s["cjk"] = ["全世界", "世界", "に", "aに", "世界中に", "世"]
     s["astral"] = ["😀", "a😀", "😀😁", "𝄞a", "é😁"]
     s["tokyo"] = ["東京", "京都", "東京都", "都"]
+    # control-character alphabets: a 3-4 entry mapper table (tiny serialised images for family A)
+    s["ctl2"] = ["\x01\x02", "\x02\x01", "\x02"]
+    s["ctl3"] = ["\x01\x02", "\x02\x03", "\x01\x02\x03", "\x03"]
     return s
 
 
